@@ -1,6 +1,6 @@
 (* C05: lemmas about the aggregation model - get/set algebra over first-match records, one
    closed form per Go loop, refinement of every step to Agg_spec.spec_step. *)
-From Coq Require Import List Bool Arith NArith ZArith String Lia.
+From Coq Require Import List Bool Arith NArith ZArith String Lia Permutation.
 From Verif.Model Require Import Agg.
 From Verif.Proofs Require Import Agg_spec.
 Import ListNotations.
@@ -1542,6 +1542,135 @@ Proof.
   apply String.eqb_eq in H1. apply kind_eqb_eq in H2. subst. f_equal. apply IH. assumption.
 Qed.
 
+(* ---------------------------------------------------------------- equivalent templates (lookup by name) *)
+Lemma kind_eqb_refl : forall k, kind_eqb k k = true.
+Proof. destruct k; reflexivity. Qed.
+Lemma okind_eqb_eq : forall a b, okind_eqb a b = true <-> a = b.
+Proof.
+  intros [x|] [y|]; simpl; split; intro H; try discriminate; try reflexivity.
+  - apply kind_eqb_eq in H. subst. reflexivity.
+  - inversion H. apply kind_eqb_refl.
+Qed.
+Lemma kind_at_none : forall sh n, kind_at sh n = None <-> ~ In n (map fst sh).
+Proof.
+  induction sh as [|[m k] t IH]; intros n; simpl; [tauto|].
+  destruct (String.eqb m n) eqn:E.
+  - apply String.eqb_eq in E. subst. split; [discriminate | intros H; exfalso; apply H; left; reflexivity].
+  - apply String.eqb_neq in E. rewrite IH. tauto.
+Qed.
+Lemma kind_at_in : forall sh n k, kind_at sh n = Some k -> In (n, k) sh.
+Proof.
+  induction sh as [|[m j] t IH]; intros n k H; simpl in *; [discriminate|].
+  destruct (String.eqb m n) eqn:E.
+  - apply String.eqb_eq in E. inversion H. subst. left. reflexivity.
+  - right. apply IH. assumption.
+Qed.
+Lemma in_kind_at_nodup : forall sh n k, NoDup (map fst sh) -> In (n, k) sh -> kind_at sh n = Some k.
+Proof.
+  induction sh as [|[m j] t IH]; intros n k ND H; simpl in *; [contradiction|].
+  inversion ND as [|? ? Hm ND']; subst.
+  destruct H as [H|H].
+  - inversion H; subst. rewrite String.eqb_refl. reflexivity.
+  - destruct (String.eqb m n) eqn:E; [|apply IH; assumption].
+    apply String.eqb_eq in E. subst. exfalso. apply Hm. apply (in_map fst) in H. exact H.
+Qed.
+
+(* shape_equiv: the two templates answer every lookup by name alike *)
+Lemma shape_equiv_spec : forall a b, shape_equiv a b = true <-> forall n, kind_at a n = kind_at b n.
+Proof.
+  intros a b. unfold shape_equiv. rewrite forallb_forall. split.
+  - intros H n.
+    destruct (kind_at a n) as [k|] eqn:Ea.
+    + pose proof (kind_at_in _ _ _ Ea) as I.
+      specialize (H (n, k) (in_or_app _ _ _ (or_introl I))).
+      apply okind_eqb_eq in H. simpl in H. rewrite Ea in H. exact H.
+    + destruct (kind_at b n) as [j|] eqn:Eb; [|reflexivity].
+      pose proof (kind_at_in _ _ _ Eb) as I.
+      specialize (H (n, j) (in_or_app _ _ _ (or_intror I))).
+      apply okind_eqb_eq in H. simpl in H. rewrite Ea, Eb in H. exact H.
+  - intros H f _. apply okind_eqb_eq. apply H.
+Qed.
+Lemma shape_equiv_refl : forall a, shape_equiv a a = true.
+Proof. intros. apply shape_equiv_spec. reflexivity. Qed.
+Lemma shape_equiv_sym : forall a b, shape_equiv a b = true -> shape_equiv b a = true.
+Proof. intros a b H. apply shape_equiv_spec. intros n. symmetry. apply shape_equiv_spec. exact H. Qed.
+Lemma shape_equiv_trans : forall a b c, shape_equiv a b = true -> shape_equiv b c = true -> shape_equiv a c = true.
+Proof.
+  intros a b c H1 H2. apply shape_equiv_spec. intros n.
+  rewrite (proj1 (shape_equiv_spec a b) H1 n). apply shape_equiv_spec. exact H2.
+Qed.
+(* identical templates (the former requirement) are equivalent *)
+Lemma shape_eqb_equiv : forall a b, shape_eqb a b = true -> shape_equiv a b = true.
+Proof. intros a b H. apply shape_eqb_eq in H. subst. apply shape_equiv_refl. Qed.
+(* without duplicated names: equivalent = the same set of (name, kind) fields ... *)
+Lemma shape_equiv_nodup_iff : forall a b, NoDup (map fst a) -> NoDup (map fst b) ->
+  (shape_equiv a b = true <-> forall f, In f a <-> In f b).
+Proof.
+  intros a b Na Nb. rewrite shape_equiv_spec. split.
+  - intros H [n k]. split; intro Hin.
+    + apply kind_at_in. rewrite <- H. apply in_kind_at_nodup; assumption.
+    + apply kind_at_in. rewrite H. apply in_kind_at_nodup; assumption.
+  - intros H n. destruct (kind_at a n) as [k|] eqn:Ea.
+    + symmetry. apply in_kind_at_nodup; [assumption|]. apply H. apply kind_at_in. assumption.
+    + destruct (kind_at b n) as [j|] eqn:Eb; [|reflexivity].
+      apply kind_at_in in Eb. apply H in Eb. apply (in_kind_at_nodup _ _ _ Na) in Eb. congruence.
+Qed.
+(* ... in particular every permutation of a template without duplicated names is equivalent to it *)
+Lemma shape_equiv_perm : forall a b, NoDup (map fst a) -> Permutation a b -> shape_equiv a b = true.
+Proof.
+  intros a b Na P.
+  assert (Nb : NoDup (map fst b)) by (eapply Permutation_NoDup; [apply Permutation_map; exact P | exact Na]).
+  apply shape_equiv_nodup_iff; [assumption | assumption|].
+  intros f. split; intro H; [eapply Permutation_in; [exact P | exact H] | eapply Permutation_in; [apply Permutation_sym; exact P | exact H]].
+Qed.
+
+(* lookup by name in a record does not depend on the order of its (distinct) fields *)
+Lemma get_in : forall r n v, get r n = Some v -> In (n, v) r.
+Proof.
+  induction r as [|[m w] t IH]; intros n v H; simpl in *; [discriminate|].
+  destruct (String.eqb m n) eqn:E.
+  - apply String.eqb_eq in E. inversion H. subst. left. reflexivity.
+  - right. apply IH. assumption.
+Qed.
+Lemma in_get_nodup : forall r n v, NoDup (map fst r) -> In (n, v) r -> get r n = Some v.
+Proof.
+  induction r as [|[m w] t IH]; intros n v ND H; simpl in *; [contradiction|].
+  inversion ND as [|? ? Hm ND']; subst.
+  destruct H as [H|H].
+  - inversion H; subst. rewrite String.eqb_refl. reflexivity.
+  - destruct (String.eqb m n) eqn:E; [|apply IH; assumption].
+    apply String.eqb_eq in E. subst. exfalso. apply Hm. apply (in_map fst) in H. exact H.
+Qed.
+Lemma get_none : forall r n, get r n = None <-> ~ In n (map fst r).
+Proof.
+  induction r as [|[m w] t IH]; intros n; simpl; [tauto|].
+  destruct (String.eqb m n) eqn:E.
+  - apply String.eqb_eq in E. subst. split; [discriminate | intros H; exfalso; apply H; left; reflexivity].
+  - apply String.eqb_neq in E. rewrite IH. tauto.
+Qed.
+Lemma get_perm : forall r r' n, NoDup (map fst r) -> Permutation r r' -> get r' n = get r n.
+Proof.
+  intros r r' n ND P.
+  assert (ND' : NoDup (map fst r')) by (eapply Permutation_NoDup; [apply Permutation_map; exact P | exact ND]).
+  destruct (get r n) as [v|] eqn:E.
+  - apply in_get_nodup; [exact ND'|]. eapply Permutation_in; [exact P|]. apply get_in. exact E.
+  - apply get_none. apply get_none in E. intro H. apply E.
+    eapply Permutation_in; [apply Permutation_sym; apply Permutation_map; exact P | exact H].
+Qed.
+Lemma shape_perm : forall r r', Permutation r r' -> Permutation (shape r) (shape r').
+Proof. intros. unfold shape. apply Permutation_map. assumption. Qed.
+Lemma shape_names : forall r, map fst (shape r) = map fst r.
+Proof. intros. unfold shape. rewrite map_map. reflexivity. Qed.
+(* the records of two exporters that send the same (distinct) fields in different orders have
+   equivalent templates, and every field is read alike from both *)
+Lemma record_perm_equiv : forall r r', NoDup (map fst r) -> Permutation r r' ->
+  shape_equiv (shape r) (shape r') = true /\ forall n, get r' n = get r n.
+Proof.
+  intros r r' ND P. split.
+  - apply shape_equiv_perm; [rewrite shape_names; exact ND | apply shape_perm; exact P].
+  - intros n. apply get_perm; assumption.
+Qed.
+
 (* ---------------------------------------------------------------- node classification never fails on typed templates *)
 Definition pods_ok (r : record) : Prop :=
   (kind_at (shape r) "sourcePodName" = None \/ kind_at (shape r) "sourcePodName" = Some KStr) /\
@@ -1656,6 +1785,17 @@ Proof.
   unfold stored_ok2. intros c sh0 ex ex' H [H1 H2]. split.
   - eapply stored_ok_shape; eassumption.
   - rewrite H. assumption.
+Qed.
+
+(* stored_ok2 only looks the template up by name: equivalent templates are interchangeable *)
+Lemma stored_ok2_equiv : forall c sh sh' ex, (forall n, kind_at sh n = kind_at sh' n) ->
+  stored_ok2 c sh ex -> stored_ok2 c sh' ex.
+Proof.
+  intros c sh sh' ex E [[S1 [S2 S3]] S4]. split; [split; [|split]|].
+  - intros n k H. apply S1. rewrite E. exact H.
+  - exact S2.
+  - exact S3.
+  - intros n H. rewrite <- E. apply S4. exact H.
 Qed.
 
 Definition absf (c : agg_config) (o : option flow) : option flow_abs :=
@@ -1800,26 +1940,36 @@ Proof.
     destruct (rec_key r) as [k0|] eqn:RK; [|discriminate].
     unfold rec_key in RK. destruct (flow_key_of r) as [[k1 v4]| | |] eqn:FK; try discriminate.
     cbn [fst] in RK. inversion RK; subst k1. cbn [lift_status fst snd].
+    (* the template recorded for the flow (its first record's), equivalent to this record's *)
+    set (sh0 := match lookup_shape seen k0 with Some sh => sh | None => shape r end).
+    assert (EQ : forall n, kind_at sh0 n = kind_at (shape r) n).
+    { unfold sh0. destruct (lookup_shape seen k0) as [sh|]; [|reflexivity].
+      apply andb_prop in TY. destruct TY as [TY _]. apply shape_equiv_spec. exact TY. }
+    assert (TS0 : typed_shape c sh0 = true).
+    { unfold sh0. destruct (lookup_shape seen k0) as [sh|] eqn:E; [|exact TS].
+      pose proof (INV k0) as I0. destruct (lookup m k0) as [fl|].
+      - destruct I0 as (sh' & L1 & _ & L3). rewrite E in L1. inversion L1. subst. exact L3.
+      - rewrite E in I0. discriminate. }
     assert (PRE : forall fl, lookup m k0 = Some fl -> stored_ok2 c (shape r) (fl_rec fl)).
     { intros fl Hfl. pose proof (INV k0) as I0. rewrite Hfl in I0. destruct I0 as (sh & L1 & L2 & _).
-      rewrite L1 in TY. apply andb_prop in TY. destruct TY as [TY _]. apply shape_eqb_eq in TY.
-      subst sh. exact L2. }
+      apply (stored_ok2_equiv c sh0); [exact EQ|]. unfold sh0. rewrite L1. exact L2. }
     destruct (add_or_update_refines c m k0 r v4 WF TS PRE) as (m' & A1 & A2 & A3 & (fl' & A4 & A5)).
     rewrite A1. cbn [fst].
     set (seen' := match lookup_shape seen k0 with Some _ => seen | None => (k0, shape r) :: seen end).
     assert (TY' : typed_from c seen' h = true).
     { unfold seen'. destruct (lookup_shape seen k0); [|exact TY]. apply andb_prop in TY. apply TY. }
-    assert (LS0 : lookup_shape seen' k0 = Some (shape r)).
-    { unfold seen'. destruct (lookup_shape seen k0) as [sh|] eqn:E.
-      - rewrite E. apply andb_prop in TY. destruct TY as [TY _]. apply shape_eqb_eq in TY. subst. reflexivity.
+    assert (LS0 : lookup_shape seen' k0 = Some sh0).
+    { unfold seen', sh0. destruct (lookup_shape seen k0) as [sh|] eqn:E.
+      - exact E.
       - simpl. rewrite key_eqb_refl. reflexivity. }
     assert (LSO : forall k', k' <> k0 -> lookup_shape seen' k' = lookup_shape seen k').
     { intros k' N. unfold seen'. destruct (lookup_shape seen k0); [reflexivity|]. simpl.
       rewrite (proj2 (key_eqb_neq k0 k')) by congruence. reflexivity. }
     assert (INV' : Inv c m' seen').
     { intros k'. destruct (key_eqb k0 k') eqn:E.
-      - apply key_eqb_eq in E. subst k'. rewrite A4. exists (shape r).
-        split; [assumption|]. split; assumption.
+      - apply key_eqb_eq in E. subst k'. rewrite A4. exists sh0.
+        split; [assumption|]. split; [|assumption].
+        apply (stored_ok2_equiv c (shape r)); [intros n; symmetry; apply EQ | exact A5].
       - apply key_eqb_neq in E. rewrite A3, LSO by congruence. apply INV. }
     rewrite (IH m' seen' INV' TY' k).
     destruct (key_eqb k0 k) eqn:E.
@@ -1877,3 +2027,20 @@ Proof.
   rewrite (aggregation_refinement c _ k WF T1), (aggregation_refinement c h k WF T2).
   rewrite events_other_key by assumption. reflexivity.
 Qed.
+
+(* the former hypothesis (same template, field for field in the same order, for all records of a
+   flow) implies the present one: the theorems above are stated under a weaker hypothesis *)
+Lemma typed_from_ordered_incl : forall c h seen,
+  typed_from_ordered c seen h = true -> typed_from c seen h = true.
+Proof.
+  intros c. induction h as [|o h IH]; intros seen H; [reflexivity|].
+  destruct o as [r|k0]; cbn [typed_from typed_from_ordered] in *; [|apply IH; exact H].
+  apply andb_prop in H. destruct H as [H1 H2]. rewrite H1. cbn [andb].
+  destruct (rec_key r) as [k|]; [|discriminate].
+  destruct (lookup_shape seen k) as [sh|].
+  - apply andb_prop in H2. destruct H2 as [H2 H3]. rewrite (shape_eqb_equiv _ _ H2), (IH _ H3). reflexivity.
+  - apply IH. exact H2.
+Qed.
+Theorem typed_history_ordered_incl : forall c h,
+  typed_history_ordered c h = true -> typed_history c h = true.
+Proof. intros c h. apply typed_from_ordered_incl. Qed.
